@@ -214,6 +214,39 @@ def job_api(j):
             df = compare(s, got, ref)
             if df:
                 bad(f'api:documented-reading/{fam}/{tname(s)}', s.id_, f'{s.id_} @{s.offset} = {own.hex()}: {df}', k)
+    # single reads through both entry points, in both orders, on one object: read_sensor(id) / read_setting(id) report the
+    # documented reading of THAT item's registers (ids may name a sensor and a setting at different addresses)
+    if cfg.get('singles'):
+        for order in ('sensors-first', 'settings-first'):
+            world.reset()
+            r = make_rig(cfg, transport, fill=api_fill(2, seed))
+            inv = r.inv
+            if fam == 'ES':
+                f = api_fill(2, seed)
+                for i in range(len(r.dev.runtime)):
+                    r.dev.runtime[i] = f(i) & 0xFF
+            if r.call(inv.read_device_info)[0] != 'ok':
+                continue
+            sens = [('sensor', s) for s in inv.sensors() if own_span(s)]
+            sets = [('setting', s) for s in inv.settings() if own_span(s)]
+            ids = [s.id_ for _, s in sens]
+            for kind, s in (sens + sets if order == 'sensors-first' else sets + sens):
+                if kind == 'sensor' and ids.count(s.id_) > 1:
+                    continue
+                nb = refdec.size_of(s)
+                if fam == 'ES' and (s.offset < 1000 or kind == 'sensor'):
+                    continue     # AA55 blob items are not read singly
+                st = r.call(inv.read_sensor if kind == 'sensor' else inv.read_setting, s.id_)
+                if st[0] != 'ok':
+                    continue
+                own = r.dev.rf.getbytes(s.offset, (nb + 1) // 2)[:nb]
+                ref = refdec.decode(s, own)
+                got = ('ValueError', '') if (st[1] is None and ref is refdec.NOVALUE) else ('value', st[1])
+                n += 1
+                df = compare(s, got, ref)
+                if df:
+                    bad(f'api:documented-reading/{fam}/read_{kind}/{tname(s)}', s.id_,
+                        f'read_{kind}({s.id_!r}) @{s.offset} = {own.hex()}: {df} ({order})', 2)
     res = []
     for key, lst in vio.items():
         lst[0]['n'] = len(lst)
@@ -324,6 +357,8 @@ def run(tier, seed, rep):
     napi = 0
     acfgs = api_configs(tier, seed)
     ajobs = [(c, 'udp', seed) for c in acfgs] + [(c, 'tcp', seed) for c in acfgs if c['family'] != 'ES'][::5]
+    step = 1 if tier == 'thorough' else 6
+    ajobs += [(dict(c, singles=True), 'udp', seed) for c in acfgs[seed % step::step]]
     for n, res in pmap(job_api, ajobs):
         napi += n
         rep.add_many(res)
